@@ -1,0 +1,35 @@
+//go:build verif
+
+// Contracts for the gvc verifier (/verif). Comment-only file: it adds no code to the package.
+package tmconsensus
+
+// ---- C18: Byzantine thresholds ----
+
+//@ define IsMaj(n, m) = 3*m > 2*n && 3*(m-1) <= 2*n
+//@ define IsMin(n, m) = 3*m >= n && 3*(m-1) < n
+
+//@ func ByzantineMajority
+//@   property C18
+//@   option nowrap on
+//@   panics_if n == 0
+//@   ensures exceeds-two-thirds: 3*result > 2*n
+//@   ensures smallest: 3*(result-1) <= 2*n
+//@   ensures in-range: 1 <= result && result <= n
+
+//@ func ByzantineMinority
+//@   property C18
+//@   option nowrap on
+//@   panics_if n == 0
+//@   ensures reaches-one-third: 3*result >= n
+//@   ensures smallest: 3*(result-1) < n
+//@   ensures in-range: 1 <= result && result <= n
+
+//@ lemma[C18] maj-unique: forall n mathint, m1 mathint, m2 mathint :: n > 0 && IsMaj(n, m1) && IsMaj(n, m2) ==> m1 == m2
+//@ lemma[C18] min-unique: forall n mathint, m1 mathint, m2 mathint :: n > 0 && IsMin(n, m1) && IsMin(n, m2) ==> m1 == m2
+//@ lemma[C18] quorum-intersection: forall n mathint, maj mathint, mn mathint, a mathint, b mathint ::
+//@     n > 0 && IsMaj(n, maj) && IsMin(n, mn) && a <= n && b <= n && a >= maj && b >= maj ==> a + b - n >= mn
+//@ lemma[C18] below-minority-cannot-form-majority: forall n mathint, maj mathint, mn mathint, x mathint ::
+//@     n > 0 && IsMaj(n, maj) && IsMin(n, mn) && 0 <= x && x < mn ==> x < maj
+//@ lemma[C18] below-minority-cannot-block: forall n mathint, maj mathint, mn mathint, x mathint ::
+//@     n > 0 && IsMaj(n, maj) && IsMin(n, mn) && 0 <= x && x < mn ==> n - x >= maj
+//@ lemma[C18] min-le-maj: forall n mathint, maj mathint, mn mathint :: n > 0 && IsMaj(n, maj) && IsMin(n, mn) ==> mn <= maj
